@@ -118,6 +118,34 @@ CHECKS.update({
                "membership, side, flux, ranges, totals, percentages, rendering.", _FAM, "DESIGN.md §4 C20"),
 })
 
+
+CHECKS.update({
+    "C13": ("fault_enumeration", "fault enumeration: choice-point search over injected solver failures (vsolver seam) x analyses x model classes",
+            "43 analyses x 7 model classes (feasible, cycle, infeasible, unbounded, zero optimum, empty objective, two "
+            "substrates) x {outside, inside a user context after an edit}: fault-free run, repeat run, and every single injected "
+            "failure of the k-th solver call (raise SolverError / report infeasible / report undefined), thorough: all pairs for "
+            "N<=30; ordered snapshot (content, raw LP, solver configuration) before == after; the user's context exit restores "
+            "the entry state; repeated calls agree on uniquely defined outputs.",
+            "Faults are injected at optlang's public Model.optimize (where cobrapy calls the solver); big-M analyses are not "
+            "run on the model with infinite bounds (GLPK aborts on infinite coefficients); parallel paths are C14.",
+            "DESIGN.md §4 C13"),
+    "C14": _mc("stateless choice-point DFS (deviation-bounded) over schedules of a controlled forked process pool",
+               "For FVA (plain/loopless/pfba), blocked, essential, single/double gene/reaction deletion (fba, linear moma) and "
+               "OptGP sampling: processes 2..3 (thorough 4), every permutation of the item list, every chunk->worker assignment "
+               "(up to worker symmetry) and delivery order within <=2 (3) deviations from the default schedule, executed on "
+               "real fork()ed workers in lock-step; results must equal the processes=1 result and single-item calls; the real "
+               "multiprocessing pool is run for conformance.",
+               "Pool model: chunks are consecutive slices, a worker runs its chunks in queue order, workers do not talk to the "
+               "parent while running; OS-level worker failures not modelled.", "DESIGN.md §4 C14"),
+    "C16": _mc("choice-point DFS over the answers of the samplers' random source (vrng seam) with an independent feasibility oracle",
+               "5 models (homogeneous with cycle, forced, fixed, user inequality, user equality) x {ACHR, OptGP}: every answer "
+               "sequence (all randint values x 5-point uniform menu) to depth 2 and depth 3 (4) within a deviation bound, "
+               "alternating reaction/variable space; every point checked against S v = 0, bounds and user constraints of the "
+               "original model and against validate(); finite menus of seed/n/thinning/processes/methods exhaustively.",
+               "uniform() abstracted to a 5-point menu (bounded abstraction of a continuous walk); documented refusals "
+               "('Cannot escape sampling region') are counted, not judged.", "DESIGN.md §4 C16"),
+})
+
 NOT_YET = {}
 
 props = [json.loads(l) for l in open(os.path.join(ROOT, "properties.jsonl"))]
